@@ -127,8 +127,10 @@ void sim_write_result(const char *status, const char *cls, const char *msg)
     (void)w;
 }
 
+void sim_quarantine_check(void);
 void sim_result_ok(void)
 {
+    sim_quarantine_check();
     if (G.plain_points)
         sim_count("sim.plain_access_sched_points", G.plain_points);
     sim_write_result("ok", "-", "");
